@@ -514,6 +514,18 @@ func runMerkle(s *Session, ops []merkleOp) {
 				if !rhp2.VerifyAppendProof(uint64(op.n), sub, app[0], oldRoot, one) {
 					bad("honest-rejected", "honest rhp/v2 append proof (%d+1) rejected", op.n)
 				}
+				if rhp2.VerifyAppendProof(uint64(op.n), sub, app[0], flipHash([]types.Hash256{oldRoot}, cs[3])[0], one) {
+					bad("append-proof-unsound", "rhp/v2 append proof (%d+1) accepted with a corrupted old root", op.n)
+				}
+				if rhp2.VerifyAppendProof(uint64(op.n), sub, app[0], oldRoot, flipHash([]types.Hash256{one}, cs[4])[0]) {
+					bad("append-proof-unsound", "rhp/v2 append proof (%d+1) accepted with a corrupted new root", op.n)
+				}
+				if rhp2.VerifyAppendProof(uint64(op.n), sub, flipHash(app[:1], cs[2])[0], oldRoot, one) {
+					bad("append-proof-unsound", "rhp/v2 append proof (%d+1) accepted with a corrupted appended root", op.n)
+				}
+				if len(sub) > 0 && rhp2.VerifyAppendProof(uint64(op.n), flipHash(sub, cs[1]), app[0], oldRoot, one) {
+					bad("append-proof-unsound", "rhp/v2 append proof (%d+1) accepted with a corrupted subtree root", op.n)
+				}
 				e.inc("merkle.corruptions")
 				e.reachAdd(fmt.Sprintf("append n=%d k=%d", min(op.n, 40), op.appended))
 			case "free":
